@@ -56,6 +56,8 @@ fn custom_model(k: usize) -> Model {
     }
 }
 fn custom_path(k: usize) -> PathBuf {
+    // one of the files sits at a path that ends like the system's own zone file: it is still the named file
+    if k == 5 { return work_dir().join("host").join("etc").join("localtime"); }
     work_dir().join(format!("z{k}.tzif"))
 }
 pub fn ensure_files() -> Result<(), String> {
@@ -64,6 +66,7 @@ pub fn ensure_files() -> Result<(), String> {
     ensure_decoys()?;
     for k in 0..N_CUSTOM {
         let p = custom_path(k);
+        if let Some(parent) = p.parent() { std::fs::create_dir_all(parent).map_err(|e| format!("harness: {e}"))?; }
         let mut m = custom_model(k);
         // the footer type must equal the last transition's type (dst flag false for a fixed rule)
         if m.footer.is_some() { m.types[1].isdst = false; }
